@@ -22,6 +22,7 @@ import (
 	"fmt"
 	"math"
 	"os"
+	"os/exec"
 	"path/filepath"
 	"strconv"
 	"strings"
@@ -39,7 +40,10 @@ type input struct {
 	Exe    string   `json:"exe"`    // child (absolute path) | rel-copy (./child-copy, resolved in the run directory) |
 	//                                  rel-sub (sub/child) | missing-abs | missing-path | none (empty args) | nil (nil args)
 	Script []string `json:"script"` // tokens for the child (without the d<cwd> token the harness adds)
-	Dir    string   `json:"dir"`    // inherit | plain | space | missing
+	Dir    string   `json:"dir"`    // inherit | plain | space | missing | symlink | symlink-chain | odd-blank | odd-unicode |
+	//                                  odd-percent | odd-bracket | relative | dotdot | relative-dotdot | nowrite (non-root only)
+	Caller string   `json:"caller,omitempty"` // state of os.Stdout / os.Stderr of the process that makes the call:
+	//                                  "" (the harness' own) | closed | devfull | pipe-unread | devnull
 	Cap    int64    `json:"cap"`    // model parameters (the result does not depend on them)
 	Rchunk int64    `json:"rchunk"`
 	Sched  []int    `json:"sched"`
@@ -50,6 +54,7 @@ const pipeBuf = 65536
 
 var childBin, workDir string
 
+// dirPath is the string handed over as runDir
 func dirPath(kind string) string {
 	switch kind {
 	case "plain":
@@ -58,9 +63,56 @@ func dirPath(kind string) string {
 		return filepath.Join(workDir, "with space", "and 'quote")
 	case "missing":
 		return filepath.Join(workDir, "missing", "dir")
+	case "symlink": // a symlink to a directory
+		return filepath.Join(workDir, "links", "to-plain")
+	case "symlink-chain": // symlink -> symlink -> directory
+		return filepath.Join(workDir, "links", "chain2")
+	case "odd-blank":
+		return filepath.Join(workDir, "odd", " ")
+	case "odd-unicode":
+		return filepath.Join(workDir, "odd", "d\u00efr-\u00fc-\u65e5\u672c")
+	case "odd-percent":
+		return filepath.Join(workDir, "odd", "100%s%d")
+	case "odd-bracket":
+		return filepath.Join(workDir, "odd", "[a]*?")
+	case "nowrite":
+		return filepath.Join(workDir, "odd", "nowrite")
+	case "relative": // relative to the cwd of the calling process (= workDir)
+		return "plain"
+	case "dotdot":
+		return filepath.Join(workDir, "plain") + "/sub/../../with space/and 'quote/sub/.."
+	case "relative-dotdot":
+		return "./links/../plain/."
 	}
 	return "" // inherit
 }
+
+// realDir: the directory the command must find itself in (what pwd -P would print)
+func realDir(kind string) string {
+	p := dirPath(kind)
+	if p == "" {
+		p, _ = os.Getwd()
+	}
+	if !filepath.IsAbs(p) {
+		p = filepath.Join(workDir, p)
+	}
+	if r, err := filepath.EvalSymlinks(p); err == nil {
+		return r
+	}
+	return filepath.Clean(p)
+}
+
+// hasCopies: the run directory is (resolves to) one that holds ./child-copy and sub/child
+func hasCopies(kind string) bool {
+	switch kind {
+	case "plain", "space", "symlink", "symlink-chain", "relative", "dotdot", "relative-dotdot":
+		return true
+	}
+	return false
+}
+
+var dirKinds = []string{"plain", "space", "symlink", "symlink-chain", "odd-blank", "odd-unicode", "odd-percent", "odd-bracket",
+	"relative", "dotdot", "relative-dotdot"}
 
 func prepareDirs() {
 	for _, k := range []string{"plain", "space"} {
@@ -69,6 +121,26 @@ func prepareDirs() {
 		}
 	}
 	os.RemoveAll(filepath.Join(workDir, "missing"))
+	for _, k := range []string{"odd-blank", "odd-unicode", "odd-percent", "odd-bracket", "nowrite"} {
+		if err := os.MkdirAll(dirPath(k), 0o755); err != nil {
+			panic(err)
+		}
+	}
+	os.Chmod(dirPath("nowrite"), 0o555)
+	os.MkdirAll(filepath.Join(workDir, "links"), 0o755)
+	mklink := func(target, name string) {
+		l := filepath.Join(workDir, "links", name)
+		if t, err := os.Readlink(l); err == nil && t == target {
+			return
+		}
+		os.Remove(l)
+		if err := os.Symlink(target, l); err != nil {
+			panic(err)
+		}
+	}
+	mklink(filepath.Join("..", "plain"), "to-plain")                       // relative target
+	mklink(filepath.Join(workDir, "with space", "and 'quote"), "chain1") // absolute target
+	mklink("chain1", "chain2")
 	// the child under relative names inside the run directories (never inside workDir itself, which is
 	// the harness' own working directory: "./child-copy" resolved against the process cwd does not exist)
 	bin, err := os.ReadFile(childBin)
@@ -100,7 +172,7 @@ func (in input) startable() bool {
 	case "child":
 		return in.Dir != "missing"
 	case "rel-copy", "rel-sub":
-		return in.Dir == "plain" || in.Dir == "space"
+		return hasCopies(in.Dir)
 	}
 	return false
 }
@@ -117,10 +189,7 @@ func (in input) args() []string {
 	case "missing-path":
 		return append([]string{"no-such-command-c14-verif"}, in.Script...)
 	}
-	cwd := dirPath(in.Dir)
-	if cwd == "" {
-		cwd, _ = os.Getwd()
-	}
+	cwd := realDir(in.Dir)
 	exe := childBin
 	switch in.Exe {
 	case "rel-copy":
@@ -251,7 +320,76 @@ func showMap(m map[string]interface{}, script []string) string {
 	return fmt.Sprintf("OK n=%d rv=%s out=%s err=%s", len(m), rv, showStream(o, ook, 0, script), showStream(e, eok, 1, script))
 }
 
+// runWithCaller makes the call from a separate process (this binary, subcommand "one") whose own
+// stdout and stderr are in the requested state; the observable comes back through a file
+func runWithCaller(in input) string {
+	tmp, err := os.MkdirTemp(workDir, "caller-")
+	if err != nil {
+		panic(err)
+	}
+	defer os.RemoveAll(tmp)
+	cj, oj := filepath.Join(tmp, "case.json"), filepath.Join(tmp, "out.txt")
+	os.WriteFile(cj, lib.MustJSON(struct {
+		Input input `json:"input"`
+	}{in}), 0o644)
+	self, _ := os.Executable()
+	cmd := exec.Command(self, "one", cj, childBin, workDir, oj)
+	cmd.Dir = workDir
+	var keep []*os.File
+	defer func() {
+		for _, f := range keep {
+			f.Close()
+		}
+	}()
+	switch in.Caller {
+	case "devfull", "devnull":
+		path := map[string]string{"devfull": "/dev/full", "devnull": "/dev/null"}[in.Caller]
+		for i := 0; i < 2; i++ {
+			f, err := os.OpenFile(path, os.O_WRONLY, 0)
+			if err != nil {
+				return "SKIP(" + path + ")"
+			}
+			keep = append(keep, f)
+		}
+		cmd.Stdout, cmd.Stderr = keep[0], keep[1]
+	case "pipe-unread": // the read ends stay open in this process and are never read
+		for i := 0; i < 2; i++ {
+			r, w, err := os.Pipe()
+			if err != nil {
+				panic(err)
+			}
+			keep = append(keep, r, w)
+		}
+		cmd.Stdout, cmd.Stderr = keep[1], keep[3]
+	case "closed": // the process closes its os.Stdout / os.Stderr itself before the call
+		cmd.Stdout, cmd.Stderr = nil, nil
+	}
+	if err := cmd.Start(); err != nil {
+		panic(err)
+	}
+	done := make(chan struct{})
+	go func() { cmd.Wait(); close(done) }()
+	select {
+	case <-done:
+	case <-time.After(deadline() + 10*time.Second):
+		cmd.Process.Kill()
+		atomic.AddInt32(&hangs, 1)
+		return "HANG"
+	}
+	b, err := os.ReadFile(oj)
+	if err != nil {
+		return "NORESULT"
+	}
+	if string(b) == "HANG" {
+		atomic.AddInt32(&hangs, 1)
+	}
+	return string(b)
+}
+
 func runImpl(in input) string {
+	if in.Caller != "" {
+		return runWithCaller(in)
+	}
 	args := in.args()
 	dir := dirPath(in.Dir)
 	res := make(chan string, 1)
@@ -635,6 +773,35 @@ func gen(r *lib.Rng, tier string) []gcase {
 	add("grandchild-writes", I, child, inh, "e5", "ge5", "go5", "o5")
 	add("grandchild-writes", R, child, inh, "o10", "go10", "rodc10", "lo", "o10", "k15")
 
+	// shapes of the run directory: the command runs there (it checks that its physical cwd is the
+	// directory the path resolves to) and capture / status are as written
+	for i, d := range dirKinds {
+		add("rundir-"+d, R, child, d, "o10", "e20", "x3")
+		add("rundir-"+d, []string{I, R}[i%2], child, d, "e100000", "o100000")
+		if hasCopies(d) {
+			add("rundir-"+d, []string{R, I}[i%2], []string{"rel-copy", "rel-sub"}[i%2], d, "o7", "e70000", "x5")
+		}
+	}
+	for _, d := range []string{"odd-unicode", "odd-bracket", "relative", "dotdot"} { // not through a symlink: recording is C13's
+		add("rundir-"+d, "RunInspections", child, d, "o10", "e20")
+	}
+	if os.Geteuid() != 0 {
+		add("rundir-nowrite", R, child, "nowrite", "o10", "e20", "x3")
+		add("rundir-nowrite", I, child, "nowrite", "e100000", "o5")
+	}
+	// the calling process' own stdout / stderr are closed, /dev/full, a pipe nobody reads, /dev/null
+	for _, c := range []string{"closed", "devfull", "pipe-unread", "devnull"} {
+		k := "caller-stdio-" + c
+		add(k, R, child, inh, "o10", "e5", "x0")
+		out[len(out)-1].in.Caller = c
+		add(k, R, child, inh, "o200000", "e100000", "o1", "x0")
+		out[len(out)-1].in.Caller = c
+		add(k, R, child, "plain", "e300", "o100", "x3")
+		out[len(out)-1].in.Caller = c
+		add(k, I, child, inh, "o50", "e150000")
+		out[len(out)-1].in.Caller = c
+	}
+
 	// --- random interleavings ---
 	for i := 0; i < nRandom; i++ {
 		rr := r.Fork()
@@ -702,6 +869,9 @@ func gen(r *lib.Rng, tier string) []gcase {
 			api = I
 		}
 		dir := []string{inh, inh, "plain", "space"}[rr.Intn(4)]
+		if rr.Chance(1, 5) {
+			dir = dirKinds[rr.Intn(len(dirKinds))]
+		}
 		add("random", api, child, dir, script...)
 		out[len(out)-1].in.LineNorm = rr.Chance(1, 2)
 	}
@@ -779,6 +949,23 @@ func main() {
 		}
 		w.Close()
 		fmt.Printf("cases=%d hangs=%d\n", len(cases), atomic.LoadInt32(&hangs))
+	case "one": // one <case.json> <child> <workdir> <out>: the call is made by THIS process, with its stdio as set up by the parent
+		b, err := os.ReadFile(os.Args[2])
+		if err != nil {
+			os.Exit(3)
+		}
+		var c struct {
+			Input input `json:"input"`
+		}
+		if err := json.Unmarshal(b, &c); err != nil {
+			os.Exit(3)
+		}
+		if c.Input.Caller == "closed" {
+			os.Stdout.Close()
+			os.Stderr.Close()
+		}
+		c.Input.Caller = ""
+		os.WriteFile(os.Args[5], []byte(runImpl(c.Input)), 0o644)
 	case "replay":
 		b, err := os.ReadFile(os.Args[2])
 		if err != nil {
